@@ -90,6 +90,9 @@ func (m *Machine) deepEqual(a, b Value, depth int) *Term {
 		return Eq(x, y)
 	case FloatV:
 		y, ok := b.(FloatV)
+		if ok && (x.T != nil || y.T != nil) {
+			m.unsupported("reflect.DeepEqual on an exact-integer float")
+		}
 		return BoolC(ok && x.F == y.F)
 	case *StrV:
 		y, ok := b.(*StrV)
